@@ -22,6 +22,14 @@
 // server's transmit bursts (sendmmsg) mix answerable and refused datagrams.
 // Poison is unanswerable traffic: it is never judged itself, every ordinary
 // query beside it is.
+//
+// Two dedicated scripts play mixed-eligibility bursts (mixed.go, shapes.go):
+// cache hits that a worker answers, interleaved with strict-ineligible and
+// wire-born questions whose resolution is slow, on one or two ingress workers
+// — "a finished reply never waits for another query's resolution"
+// (late-reply/staged-reply-held-behind-other-query, judged by counting
+// correlated witnesses against the authorities' packet log and the control
+// client's round trips in the same window).
 package main
 
 import (
@@ -52,7 +60,7 @@ func main() {
 	r.Finish(rule)
 }
 
-func rounds(r *vlib.Run) int { return r.N(1, 36) } // thorough: 36 × 15 scripts ≈ 15 min
+func rounds(r *vlib.Run) int { return r.N(1, 36) } // thorough: 36 × 17 scripts ≈ 20 min
 
 func groups(r *vlib.Run) int { return r.N(4, 4) }
 
@@ -62,7 +70,7 @@ func parent(r *vlib.Run) {
 		self = vlib.BinPath("c11", "race")
 	}
 	n := groups(r)
-	timeout := time.Duration(r.N(160, 1500)) * time.Second
+	timeout := time.Duration(r.N(160, 1700)) * time.Second
 	var wg sync.WaitGroup
 	var mu sync.Mutex
 	var prefixes []string
@@ -140,6 +148,7 @@ func parent(r *vlib.Run) {
 	r.Require("isolation_leader_expired", 4)         // the deterministic querytimeout path: slow referrals + black-holed leaf
 	r.Require("isolation_followers_in_flight_at_leader_expiry", 8)
 	requirePoison(r, int64(rounds(r)))
+	requireMixed(r, int64(rounds(r)))
 	r.Note("config", map[string]any{"querytimeout_ms": queryTimeout.Milliseconds(), "upstream_timeout_ms": upstreamTimeout.Milliseconds(), "margin_ms": baseMargin.Milliseconds()})
 }
 
